@@ -319,7 +319,7 @@ class MapIcons(ElementLoops):
         w.is_locked = E.new_bool('locked') if later(452) else False
         if E.fork(2, 'has-pixels'):
             w.width, w.height = E.new_int('width', 1, 255), E.new_int('height', 0, 255)
-            w.offset = (E.new_int('off_x', 0, 127), E.new_int('off_z', 0, 127))
+            w.offset = (E.new_int('off_x', -128, 127), E.new_int('off_z', -128, 127))
             w.pixels = SBytes([E.new_blob('pixels', hi=65535)])
         else:
             w.width, w.height, w.offset, w.pixels = 0, 0, None, None
